@@ -399,19 +399,22 @@ func (b *BlockList) Exists(key string) bool {
 	// "example.com." then "com." against both maps: a bare domain in
 	// b.m covers all its subdomains, and a "*.domain" entry in b.wild
 	// covers subdomains only.
+	//
+	// The name is in presentation form, where a dot that is part of a
+	// label is written "\."; only an unescaped dot separates labels, so
+	// "foo\.example.com." has the single parent "com." and is not below
+	// "example.com.". dns.NextLabel steps over labels by that rule.
 	offset := 0
 	for {
-		idx := strings.IndexByte(key[offset:], '.')
-		if idx == -1 {
+		var end bool
+		offset, end = dns.NextLabel(key, offset)
+		if end {
 			break
 		}
-		offset += idx + 1 // Move past the dot
 
-		if offset < len(key) {
-			suffix := key[offset:]
-			if b.m[suffix] || b.wild[suffix] {
-				return true
-			}
+		suffix := key[offset:]
+		if b.m[suffix] || b.wild[suffix] {
+			return true
 		}
 	}
 
@@ -427,14 +430,15 @@ func matchHierarchy(name string, m map[string]bool) bool {
 	if m[name] {
 		return true
 	}
+	// Whole labels only: see the walk in Exists.
 	offset := 0
 	for {
-		idx := strings.IndexByte(name[offset:], '.')
-		if idx == -1 {
+		var end bool
+		offset, end = dns.NextLabel(name, offset)
+		if end {
 			return false
 		}
-		offset += idx + 1
-		if offset < len(name) && m[name[offset:]] {
+		if m[name[offset:]] {
 			return true
 		}
 	}
